@@ -7,6 +7,7 @@ Theorems about the model `Filter.updateFilter` (Model/Filter.lean), for EVERY da
 -/
 import Paroxy.Proofs.Filter
 import Paroxy.Proofs.Imported
+import Paroxy.Proofs.Prefixes
 namespace Paroxy.Props.C04
 open Paroxy Paroxy.Filter
 
@@ -70,6 +71,14 @@ theorem C04_impart (st st' : State) (pats : List Codes) (qa : Bool)
          else u ∈ c.taxa.map (·.1) ∧ c.orc.matchTaxon pat u = true)) ∧
       st'.hiddenTaxa = st.hiddenTaxa ∧ st'.hiddenPrograms = st.hiddenPrograms :=
   impart_spec c r st st' pats qa h
+
+/-- "With all their ancestors", made independent of the code's `split`/`join`: `t ∈ prefixes u` (the
+set `impart` adds for a matched taxon `u`, see `C04_impart`) iff `t` is `u` itself or `t/` is a string
+prefix of `u` — the taxon and its ancestors in the taxonomy tree, nothing else. -/
+theorem C04_ancestors (t u : Codes) : t ∈ prefixes u ↔ t = u ∨ (t ++ [47]) <+: u :=
+  mem_prefixes t u
+
+example : prefixes (codesOf "a/b/c") = [codesOf "a", codesOf "a/b", codesOf "a/b/c"] := by decide +kernel
 
 /-- `hide` only accumulates programs / taxa to omit from the report. -/
 theorem C04_hide (st st' : State) (pats : List Codes) (qa : Bool)
